@@ -220,6 +220,12 @@ func NewRootConfig(
 	}); err != nil {
 		return nil, k, fmt.Errorf("unmarshalling config: %w", err)
 	}
+	if rootConfig.ConfigFile == nil || *rootConfig.ConfigFile == "" {
+		// The config file was discovered by searching the working directory
+		// and its parents: record where it was found, {{.ConfigDir}} is
+		// derived from it.
+		rootConfig.ConfigFile = addr(configFile.String())
+	}
 	if err := rootConfig.Initialize(ctx); err != nil {
 		return nil, k, fmt.Errorf("initializing root config: %w", err)
 	}
